@@ -1,5 +1,7 @@
 import LitexModel.DriverLib
 import LitexModel.Fhdl.Syntax
+import LitexModel.Fhdl.Memory
+import LitexModel.Fhdl.Instance
 /-
   Driver of C01.  Pure calls only (`call <fn> ...`), sections separated by ";".
 
@@ -309,8 +311,120 @@ def callDrop (secs : List (List String)) : Option String := do
     some (if dropsSlice e (← st.toNat?) (← len.toNat?) then "1" else "0")
   | _ => none
 
+/-- call mem <w> <g> <mode wf|rf|nc|as> <hasRe 0|1> <depth> ; <init words…> ; <adr> <dat_w> <we> <re> <rst> ; …
+    Runs `memEdgeF` (simulator, MemoryToArray) and `memEdgeV` (memory.py template) side by side from `memInit`.
+    -> per edge "<dat_r F> <dat_r V> <memInOk> <states equal>" (dat_r after the edge, address held). -/
+def callMem (secs : List (List String)) : Option String := do
+  match secs with
+  | [w, g, mode, re, depth] :: initS :: cycles =>
+    let md ← match mode with
+      | "wf" => some MemMode.writeFirst | "rf" => some MemMode.readFirst
+      | "nc" => some MemMode.noChange | "as" => some MemMode.async | _ => none
+    let init ← parseInts initS
+    let c : MemCfg := { w := ← w.toNat?, g := ← g.toNat?, mode := md, hasRe := re == "1", depth := ← depth.toNat?, init := init }
+    let rec go (sF sV : MemSt) (cyc : List (List String)) (acc : List String) : Option (List String) :=
+      match cyc with
+      | [] => some acc.reverse
+      | [adr, dw, we, re, rst] :: rest => do
+        let i : MemIn := { adr := ← adr.toNat?, datW := ← dw.toInt?, we := ← we.toInt?, re := re == "1", rst := rst == "1" }
+        let sF' := memEdgeF c sF i
+        let sV' := memEdgeV c sV i
+        let line := s!"{memReadF c sF' i.adr} {memReadV c sV' i.adr} {if memInOk c i then 1 else 0} {if sF' == sV' then 1 else 0}"
+        go sF' sV' rest (line :: acc)
+      | _ => none
+    let lines ← go (memInit c) (memInit c) cycles []
+    some (" ; ".intercalate (s!"{if memCfgOk c then 1 else 0}" :: lines))
+  | _ => none
+
+/-! ### instances -/
+
+def hexVal (c : Char) : Option Nat :=
+  if '0' ≤ c && c ≤ '9' then some (c.toNat - '0'.toNat)
+  else if 'a' ≤ c && c ≤ 'f' then some (c.toNat - 'a'.toNat + 10) else none
+
+/-- "x" ++ hex of the UTF-8 bytes (ASCII only) -> string ("x" alone = empty string). -/
+def unhex (t : String) : Option String :=
+  let rec go : List Char → List Char → Option (List Char)
+    | [], acc => some acc.reverse
+    | a :: b :: r, acc => do go r (Char.ofNat ((← hexVal a) * 16 + (← hexVal b)) :: acc)
+    | _, _ => none
+  match t.toList with
+  | 'x' :: r => (go r []).map String.ofList
+  | _ => none
+
+partial def parseInstParams : Nat → List String → Option (List InstParam × List String)
+  | 0, r => some ([], r)
+  | n + 1, name :: "c" :: v :: w :: sg :: r => do
+    let (ps, r) ← parseInstParams n r
+    some ({ name := name, v := .const (← v.toInt?) (← w.toNat?) (← parseBool sg) } :: ps, r)
+  | n + 1, name :: "v" :: t :: r => do
+    let (ps, r) ← parseInstParams n r
+    some ({ name := name, v := .verbatim (← unhex t) } :: ps, r)
+  | n + 1, name :: "s" :: t :: r => do
+    let (ps, r) ← parseInstParams n r
+    some ({ name := name, v := .str (← unhex t) } :: ps, r)
+  | _, _ => none
+
+partial def parseInstPorts : Nat → List String → Option (List InstPort × List String)
+  | 0, r => some ([], r)
+  | n + 1, d :: name :: r => do
+    let dir ← match d with | "i" => some PortDir.input | "o" => some PortDir.output | "x" => some PortDir.inout | _ => none
+    let (e, r) ← parseFE r
+    let (ps, r) ← parseInstPorts n r
+    some ({ dir := dir, name := name, e := e } :: ps, r)
+  | _, _ => none
+
+partial def parseTextParams : Nat → List String → Option (List (String × PText) × List String)
+  | 0, r => some ([], r)
+  | n + 1, name :: "e" :: r => do
+    let (v, r) ← parseVE r
+    let (ps, r) ← parseTextParams n r
+    some ((name, .expr v) :: ps, r)
+  | n + 1, name :: "r" :: t :: r => do
+    let (ps, r) ← parseTextParams n r
+    some ((name, .raw (← unhex t)) :: ps, r)
+  | _, _ => none
+
+partial def parseTextPorts : Nat → List String → Option (List (String × VExpr) × List String)
+  | 0, r => some ([], r)
+  | n + 1, name :: r => do
+    let (v, r) ← parseVE r
+    let (ps, r) ← parseTextPorts n r
+    some ((name, v) :: ps, r)
+  | _, _ => none
+
+def diffPText : PText → PText → Option String
+  | .expr a, .expr b => diffV a b
+  | .raw a, .raw b => if a == b then none else some s!"raw:{a}"
+  | _, _ => some "kind"
+
+/-- call inst <n> params… ; <n> ports… ; <n> text params… ; <n> text ports…  (text = parsed from the real output of
+    instance.py, in text order) -> "ok" if `printInstance` gives exactly that text (names, order, values), else
+    "diff:<where>". -/
+def callInst (secs : List (List String)) : Option String := do
+  match secs with
+  | (np :: ps) :: (nq :: qs) :: (ntp :: tps) :: (ntq :: tqs) :: [] =>
+    let (params, r1) ← parseInstParams (← np.toNat?) ps
+    let (ports, r2) ← parseInstPorts (← nq.toNat?) qs
+    let (tparams, r3) ← parseTextParams (← ntp.toNat?) tps
+    let (tports, r4) ← parseTextPorts (← ntq.toNat?) tqs
+    if !r1.isEmpty || !r2.isEmpty || !r3.isEmpty || !r4.isEmpty then none
+    let it := printInstance params ports
+    if it.params.length != tparams.length then some s!"diff:param-count:{it.params.length}:{tparams.length}" else
+    if it.ports.length != tports.length then some s!"diff:port-count:{it.ports.length}:{tports.length}" else
+    let bp := (it.params.zip tparams).filterMap fun (a, b) =>
+      if a.1 != b.1 then some s!"param-name:{a.1}:{b.1}" else (diffPText a.2 b.2).map (fun d => s!"param:{a.1}:{d}")
+    let bq := (it.ports.zip tports).filterMap fun (a, b) =>
+      if a.1 != b.1 then some s!"port-name:{a.1}:{b.1}" else (diffV a.2 b.2).map (fun d => s!"port:{a.1}:{d}")
+    match bp ++ bq with
+    | [] => some "ok"
+    | b :: _ => some ("diff:" ++ b)
+  | _ => none
+
 def call (args : List String) : Option String :=
   match args with
+  | "inst" :: rest => callInst (splitSemi rest)
+  | "mem" :: rest => callMem (splitSemi rest)
   | "low" :: rest => callLow (splitSemi rest)
   | "drop" :: rest => callDrop (splitSemi rest)
   | "x" :: rest => callX (splitSemi rest)
